@@ -62,14 +62,14 @@ func (e *Engine) BaseMapEntries(v Value) []MapEntry {
 
 // Denot is what a modelled reflect.Value denotes.
 type Denot struct {
-	Kind   string         // "func", "var", "typednil", "const", "other", "invalid"
-	Fn     *ssa.Function  // func
-	Global string         // var: "pkgpath.Name" of the package-level variable it addresses
-	GoType types.Type     // static Go type of the value
-	Int    *big.Int       // const of an integer kind, or an exact go/constant Int
-	Str    *string        // const string
-	Bool   *bool          // const bool
-	Lit    string         // go/constant value made from a literal: "TOKEN:text"
+	Kind   string        // "func", "var", "typednil", "const", "other", "invalid"
+	Fn     *ssa.Function // func
+	Global string        // var: "pkgpath.Name" of the package-level variable it addresses
+	GoType types.Type    // static Go type of the value
+	Int    *big.Int      // const of an integer kind, or an exact go/constant Int
+	Str    *string       // const string
+	Bool   *bool         // const bool
+	Lit    string        // go/constant value made from a literal: "TOKEN:text"
 	Note   string
 }
 
